@@ -14,7 +14,9 @@ import (
 
 	"github.com/trustbloc/sidetree-go/pkg/api/operation"
 	"github.com/trustbloc/sidetree-go/pkg/api/protocol"
+	"github.com/trustbloc/sidetree-go/pkg/canonicalizer"
 	"github.com/trustbloc/sidetree-go/pkg/docutil"
+	"github.com/trustbloc/sidetree-go/pkg/hashing"
 	"github.com/trustbloc/sidetree-go/pkg/vdr/sidetreelongform"
 	"github.com/trustbloc/sidetree-go/pkg/vdr/sidetreelongform/dochandler"
 	"github.com/trustbloc/sidetree-go/pkg/vdr/sidetreelongform/dochandler/protocol/nsprovider"
@@ -55,6 +57,7 @@ type c20Env struct {
 	nsp     *nsprovider.Provider
 	reg     *clientregistry.Registry
 	verp    *verprovider.ClientVersionProvider
+	multi   *verprovider.ClientVersionProvider // three versions with different genesis times
 }
 
 func newC20Env() (*c20Env, error) {
@@ -75,6 +78,13 @@ func newC20Env() (*c20Env, error) {
 		return nil, err
 	}
 	if e.verp, err = verprovider.New([]protocol.Version{v}); err != nil {
+		return nil, err
+	}
+	var vs []protocol.Version
+	for _, g := range []uint64{5000, 0, 1000} {
+		vs = append(vs, &vcommon.ProtocolVersion{VersionStr: fmt.Sprintf("v@%d", g), P: protocol.Protocol{GenesisTime: g}})
+	}
+	if e.multi, err = verprovider.New(vs); err != nil {
 		return nil, err
 	}
 	e.nsp = nsprovider.New()
@@ -221,6 +231,50 @@ func c20Calls(r *fw.Rand, n int) []c20Call {
 				return resStr(nil, err)
 			}
 			return res.DIDDocument.ID
+		}})
+		// canonicalizer / hashing directly, on values with control characters, all Unicode planes and every number class
+		obj := gen.RandObject(r, 3)
+		obj["ctl"] = "a\x01b\x0b\x1f" + gen.RandString(r, 6)
+		rawObj := gen.Spell(r, obj, gen.AllSpell)
+		calls = append(calls, c20Call{"canonicalizer", func(e *c20Env, keep keepFn) string {
+			b1, err := canonicalizer.MarshalCanonical(rawObj)
+			if err != nil {
+				return resStr(nil, err)
+			}
+			b2, err := canonicalizer.MarshalCanonical(obj)
+			h, _ := hashing.CalculateModelMultihash(obj, 18)
+			return string(b1) + "|" + string(b2) + "|" + h + fmt.Sprint(err)
+		}})
+		// a create whose suffix data / delta carry such strings, through the shared document handler
+		weird := []interface{}{gen.PAddServices(map[string]interface{}{"id": "svc1", "type": "t\x02\x1e" + fmt.Sprint(r.Intn(100)), "serviceEndpoint": "https://weird.example"}),
+			gen.PAddKeys(gen.DocKey(r, "k1", gen.TJwk2020, []string{"authentication"}, "jwk"))}
+		h3 := &histCtx{r: r, proto: proto, code: 18, keyType: gen.Ed25519, hasIETF: false}
+		wc := planStep(h3, 'c', "valid", 1000, nil, func(h *histCtx, s *opStep) {
+			s.Spec.Patches = weird
+			s.Spec.AnchorOrigin = "origin\x03\x7f" + fmt.Sprint(r.Intn(1000))
+		})
+		wreq := wc.Built.Request
+		calls = append(calls, c20Call{"dochandler", func(e *c20Env, keep keepFn) string {
+			res, err := e.handler.ProcessOperation(wreq)
+			return resStr(res, err)
+		}})
+		// version provider with several versions: many lookups for different times per call
+		times := []uint64{0, 1000, 5000, 7, 1000, 0, 5000, 5000, 0}
+		offs := r.Intn(len(times))
+		calls = append(calls, c20Call{"verprovider", func(e *c20Env, keep keepFn) string {
+			var sb strings.Builder
+			for i := 0; i < 120; i++ {
+				t := times[(i*7+offs)%len(times)]
+				v, err := e.multi.Get(t)
+				if err != nil {
+					sb.WriteString("E,")
+					continue
+				}
+				sb.WriteString(v.Version())
+				sb.WriteByte(',')
+			}
+			cur, _ := e.multi.Current()
+			return sb.String() + cur.Version()
 		}})
 		// registries: lookups of keys registered before the run
 		ns := fw.Pick(r, []string{"did:ion", "did:sidetree", "did:orb", "did:unknown"})
